@@ -52,6 +52,45 @@ FOCUS = {
 }
 
 
+# reach probes: counters that must be non-zero after a batch of >= 1500 runs, otherwise the check
+# is a harness error (a probe stuck at zero means the workload no longer reaches what it claims)
+CORE_REACH = ['add.first.pt', 'add.gap.pt', 'add.adjacent.sp', 'add.adjacent-to-pt.pt', 'add.overlap.sp',
+              'add.overlap-samestart.sp', 'add.contained.pt', 'add.contained.sp', 'add.contained-dup.sp',
+              'add.overlap.sp.swapped', 'fault.F-ORD']
+REACH = {
+    'C01': CORE_REACH + ['sched.compared', 'fault.F-NOT', 'bulk.path.func', 'bulk.star.method', 'bulk.cycle.method'],
+    'C02': ['root.D.accumulative', 'root.U.removal', 'slice.cuts-both', 'convert.undirected'],
+    'C03': CORE_REACH, 'C04': CORE_REACH + ['sched.compared'], 'C05': CORE_REACH + ['sched.compared'],
+    'C06': ['slice.cuts-both', 'slice.cuts-head', 'slice.cuts-tail', 'slice.between-runs', 'slice.inverted',
+            'slice2.overlap', 'slice2.disjoint', 'slice.misses-everything'],
+    'C07': ['fault.F-ORD', 'fault.F-NOT', 'fault.F-BULK', 'fault.F-ITER', 'variants.run', 'fault.F-BULK.k=2',
+            'root.U.accumulative'],
+    'C08': ['add.acc', 'sched.compared', 'fault.F-ORD'],
+    'C09': ['fault.F-WR.raised', 'fault.F-RD.raised', 'fault.F-CLOSE.raised', 'restart.snapshots.path.gz',
+            'restart.snapshots.path.bz2', 'restart.snapshots.bytesio', 'restart.snapshots.duck',
+            'restart.snapshots.simhandle', 'parse.snapshots.read.keys', 'variants.run'],
+    'C10': ['fault.F-WR.raised', 'fault.F-RD.raised', 'fault.F-CLOSE.raised', 'restart.interactions.path.gz',
+            'restart.interactions.path.bz2', 'restart.interactions.bytesio', 'parse.interactions.read.keys',
+            'parse.interactions.parse', 'variants.run'],
+    'C11': ['restart.json', 'restart.json.no-directed-key'],
+    'C12': ['probe.paths.complete.nonempty', 'probe.paths.sampled.first', 'probe.paths.sampled.last',
+            'probe.paths.sampled.random', 'probe.allpaths.nonempty'],
+    'C13': ['probe.paths.complete.nonempty', 'probe.paths.sampled.first', 'probe.paths.absent-at-start',
+            'probe.allpaths.nonempty'],
+    'C15': ['probe.dag.nonempty', 'probe.dag.window-ends-before-last-id', 'probe.dag.invalid-window',
+            'probe.dag.no-snapshots'],
+    'C16': ['convert.directed', 'convert.undirected', 'convert.undirected.reciprocal', 'fault.F-ALIAS.node_nested',
+            'fault.F-ALIAS.graph_nested'],
+    'C17': ['probe.stats.measures', 'probe.stats.measures.multi-run-timeline', 'probe.stats.inter-event'],
+    'C18': ['fault.F-BADFIELD', 'parse.snapshots.read.keys', 'parse.interactions.read.keys', 'compact',
+            'fault.F-NOISE.comment2', 'fault.F-NOISE.commented-row', 'fault.F-NOISE.trail-comment2'],
+    'C19': ['fault.F-NX.add_edge', 'fault.F-NX.update', 'fault.F-NXANY.clear', 'fault.F-NXANY.clear_edges',
+            'fault.F-FROZEN.clear', 'fault.F-FROZEN.clear_edges', 'freeze', 'fault.F-NXANY.add_node'],
+    'C20': ['probe.conf.mirror', 'probe.conf.uniform', 'probe.conf.mixed', 'probe.conf.sliding.nonempty',
+            'probe.conf.some-node-reaches-another'],
+}
+
+
 class RunResult:
     def __init__(self):
         self.violation = None     # dict
@@ -202,7 +241,14 @@ def step_checks(world, rep, op, out):
     if bad:
         if 'c01' in armed or 'c08' in armed:
             raise Violation('C01.presence', bad[0], {'query': bad[1], 'got': bad[2], 'after': op})
-        raise Precondition('C01.presence %r' % (bad,))
+        if world.focus == 'C03' and FOCUS['C03'].get('scope') is None:
+            world.diverged = True          # judged on the model-free clauses from here on
+            world.count('c03.intrinsic-only')
+        else:
+            raise Precondition('C01.presence %r' % (bad,))
+    if getattr(world, 'diverged', False):
+        world.evals += oracles.c03_intrinsic(rep, lo, hi)
+        return
     if 'c01' in armed:
         world.evals += getattr(rep, '_n', 1)
     nonempty = bool(m.keys())
